@@ -41,9 +41,33 @@ def predicate_lambda(ctx, f, call):
     return None
 
 
-def shared_fields_read(ctx, g, cls):
-    """names of fields of cls read inside function g"""
-    return sorted({st["m"]["name"] for st in field_refs(g, cls)})
+def shared_fields_read(ctx, g, cls, site=None, depth=0):
+    """names of fields of cls read inside function g - directly, through const accessors of cls it calls on this
+    (`isActive()`), and through captured references that the creating function `site` bound to a field
+    (`[&flag] { return flag.load(); }` inside a helper that was handed `activated`)"""
+    from .engine import _ref_target
+    names = {st["m"]["name"] for st in field_refs(g, cls)}
+    if depth < 3:
+        for st in g.stmts.values():
+            if st["k"] == "CXXMemberCallExpr" and st.get("obj") and path(g, g.s(st["obj"])) == "this":
+                h = ctx.fb.callee_fn(g, st)
+                if h is not None and h.rec == cls and h.id != g.id:
+                    names |= set(shared_fields_read(ctx, h, cls, None, depth + 1))
+    if site is not None and g.is_lambda:
+        caps = []
+        for st in site.stmts.values():
+            if st["k"] == "LambdaExpr" and g.id in st.get("call_ops", []):
+                caps = [c.get("var") for c in st.get("caps", []) if c.get("var")]
+        for st in g.stmts.values():
+            if st["k"] == "DeclRefExpr" and st["d"].get("k") in ("local", "param"):
+                nm = st["d"]["name"]
+                for v in caps:
+                    if v.get("name") == nm or v.get("name", "").endswith("$" + nm):
+                        tgt = _ref_target(site, v["id"])
+                        tp = path(site, tgt) if tgt is not None else None
+                        if tp and tp.startswith("this.") and "->" not in tp and "." not in tp[5:]:
+                            names.add(tp[5:])
+    return sorted(names)
 
 
 def _local_defs(f, decl_id, name):
@@ -143,7 +167,7 @@ def check_waits(ctx, rid, cls, cvfield, mutex, pred_fields):
                "" if ok else "lock argument state: %s" % (v,), fn=top.label, inst=f.qname)
         g = predicate_lambda(ctx, f, st)
         if g is not None:
-            reads = shared_fields_read(ctx, g, cls)
+            reads = shared_fields_read(ctx, g, cls, site=f)
             ok = reads == sorted(pred_fields)
             ctx.ob(rid, ok, f.loc(st), "the wait predicate reads exactly %s" % sorted(pred_fields),
                    "" if ok else "it reads %s" % reads, fn=top.label, inst=f.qname)
